@@ -284,6 +284,13 @@ class Classifier:
                     for at_ in atoms:
                         if at_.endswith("::checked_sub(%s,%s) is Some" % (a, b)) or at_.endswith("::checked_sub(%s,%s) is None" % (b, a)):
                             auto = ("guarded", "the checked form of this subtraction decided the order of the operands: %s" % at_[-120:])
+                if auto is None:
+                    # a declared relation between two fields of the same object (rules/sinks.json, field_relations)
+                    for fr_ in self.tbl.get("field_relations", []):
+                        ma_ = re.match(r"^(param:\w+|var:\w+)\.%s$" % re.escape(fr_["ge"]), a)
+                        mb_ = re.match(r"^(param:\w+|var:\w+)\.%s$" % re.escape(fr_["le"]), b)
+                        if ma_ and mb_ and ma_.group(1) == mb_.group(1):
+                            auto = ("internal-invariant", "%s.%s <= %s.%s: %s" % (fr_["owner"], fr_["le"], fr_["owner"], fr_["ge"], fr_["why"][:120]))
                 if auto is None and (a.startswith("Add(%s," % b) or a.endswith(",%s)" % b) and a.startswith("Add(")):
                     auto = ("interval", "minuend is a sum containing the subtrahend")
                 if auto is None and b.startswith("Rem(%s," % a):
@@ -337,6 +344,33 @@ class Classifier:
                 parts = _split_top(m.group(3))
                 if any(x in lens for x in parts):
                     auto = ("interval", "slice end is min(len of the same slice, ..)")
+            # buf[x..] behind x <= buf.len() (or x < buf.len())
+            m = re.match(r"^RangeFrom::RangeFrom\((.*)\)$", idx)
+            if auto is None and m:
+                x_ = m.group(1)
+                if any(rop in ("Le", "Lt") and x == x_ and y in lens for (rop, x, y) in rels) or any(rop in ("Ge", "Gt") and y == x_ and x in lens for (rop, x, y) in rels):
+                    auto = ("guarded", "slice start is at most the length of the same slice (dominating comparison)")
+            # buf[a..b] with b = min(.., buf.len(), ..) and a <= b (dominating comparison)
+            m = re.match(r"^Range::Range\((.*)\)$", idx)
+            if auto is None and m:
+                ab_ = _split_top(m.group(1))
+                if len(ab_) == 2:
+                    a_, b_ = ab_
+                    mm_ = re.match(r"^(?:cmp|Ord)::min\((.*)\)$", b_)
+                    end_ok = (b_ in lens) or bool(mm_ and any(x in lens for x in _split_top(mm_.group(1)))) or any(rop in ("Le", "Lt") and x == b_ and y in lens for (rop, x, y) in rels)
+                    start_ok = a_ == "const:0" or any(rop in ("Le", "Lt") and x == a_ and y == b_ for (rop, x, y) in rels) or any(rop in ("Ge", "Gt") and y == a_ and x == b_ for (rop, x, y) in rels)
+                    if end_ok and start_ok:
+                        auto = ("guarded", "slice end is at most the length of the same slice and the start is at most the end (dominating comparison)")
+            # a fixed-size array sliced up to min(.., K) with K not above its length
+            m = re.match(r"^RangeTo::RangeTo\((?:cmp|Ord)::min\((.*)\)\)$", idx)
+            if auto is None and m and s["ops"] and s["ops"][0]["k"] in ("copy", "move", "const"):
+                o0_ = s["ops"][0]
+                ty0_ = (o0_["place"].get("ty") if o0_["place"]["proj"] else f.locals[o0_["place"]["local"]]["s"]) if o0_["k"] != "const" else o0_.get("ty", "")
+                ma_ = re.search(r"\[\w+; (\d+)\]", ty0_ or "")
+                from core import numeric as _numeric2
+                ks_ = [re.match(r"^const:(\d+)", _numeric2(x)) for x in _split_top(m.group(1))]
+                if ma_ and any(k_ and int(k_.group(1)) <= int(ma_.group(1)) for k_ in ks_):
+                    auto = ("interval", "a fixed-size array of %s elements sliced up to min(.., a constant not above its length)" % ma_.group(1))
             # v[n-1] with n != 0 and n <= len
             m = re.match(r"^Sub\((.*),const:1\)$", idx)
             if auto is None and m:
